@@ -304,9 +304,11 @@ def fused_map(ctx):
                 for p in AbsInt(F, fn, env, decide_call=decide_call).run():
                     em = tuple(variant_name(c[2][1]) for c in p.calls if c[1] == 'compiler::Compiler::emit_opcode')
                     if p.exit == 'return':
-                        r0 = p.env.get('_0')
+                        r0 = simp(p.env.get('_0'))
                         if em:
                             res.add(em)
+                        elif r0 and r0[0] == 'errof':
+                            continue    # an error propagated from a callee (range check, pool full): not a selection outcome
                         else:
                             res.add(('<fallback>',))
                     else:
